@@ -378,6 +378,11 @@ def _run_history(case):
             after = sorted(os.listdir(path))
             if after != before:
                 side["fuzzy_wrote"].append([i, sorted(set(after) - set(before))])
+        if out.startswith("err"):
+            # a failed get leaves the savers' "<dir>_temp" folders behind (crash leftovers are C04's subject)
+            for fn in os.listdir(path):
+                if fn.endswith("_temp"):
+                    shutil.rmtree(os.path.join(path, fn), ignore_errors=True)
         outs.append(out)
     SIDE[case_key(case)] = side
     shutil.rmtree(path, ignore_errors=True)
@@ -534,7 +539,7 @@ def gen_history(rng, max_len=12):
         elif r < 0.62:
             ops.append(["MK", who, rng.choice(types)])
         elif r < 0.84:
-            ops.append(["GT", who, rng.choice(types + types + ["zz"])])
+            ops.append(["GT", who, rng.choice(types * 4 + ["zz"])])
         elif r < 0.92:
             ops.append(["LN", who, rng.choice(types)])
         elif r < 0.97:
@@ -841,7 +846,7 @@ def run(ctx):
     rng = ctx.rng
 
     # 1. the JSON text fed to SHA-1: model vs real, and across hash seeds / insertion orders
-    vcases = [dict(v=v) for v in VALUES] + [dict(v=gen_value(rng)) for _ in range(ctx.pick(600, 6000))]
+    vcases = [dict(v=v) for v in VALUES] + [dict(v=gen_value(rng)) for _ in range(ctx.pick(600, 4000))]
     vcases += [dict(v=["S", ["alpha", "beta", "gamma", "delta"]]), dict(v=["t", [1, ["S", ["a", "b", "c"]]]]),
                dict(v=["d", [["k", ["S", ["x", "y", "z"]]]]])]
     seeds = ctx.pick([0, 1, 2], [0, 1, 2, 3, 4, 5])
@@ -871,15 +876,15 @@ def run(ctx):
                         "cycle, duplicate dependency, child plugins, default conflict", exhaustive=True, branch=branch_history)
 
     # 3. random histories
-    hcases = [gen_history(rng) for _ in range(ctx.pick(260, 4000))]
+    hcases = [gen_history(rng) for _ in range(ctx.pick(300, 2500))]
     ctx.correspond("history/random", hcases, run_history, history_op, oracle_history, nontrivial=nontrivial_history,
                    rule="random histories (3..12 ops after the initial registrations, closing get on both contexts + listing) over chain / diamond / fork "
                         "graphs of 2-4 real plugin classes with tracked, untracked, shared, child and default-less options; non-trivial = a read after "
                         "data was made and settings changed in between", branch=branch_history,
-                   in_hyp=lambda c, o: not any(s == "err RuntimeError" for s in o.split(" ;; ")))
+                   in_hyp=lambda c, o: any(v.startswith("ok") for v in SIDE[case_key(c)]["fresh"].values()))
 
     # 4. which keys change
-    kcases = keychange_cases(rng, ctx.pick(150, 1500))
+    kcases = keychange_cases(rng, ctx.pick(150, 1000))
     ctx.correspond("keychange", kcases, run_history, history_op, oracle_keychange, nontrivial=lambda c, o: True,
                    rule="one change (tracked / untracked / shared / unknown option, version, class name, default, compressor) in a random graph: "
                         "the keys of exactly the type(s) taking it and their descendants change", branch=lambda c, o: c["kind"])
